@@ -361,6 +361,7 @@ use loom::sync::atomic::AtomicUsize;
 pub struct Payload {
     arc: usize,
     cell: Option<usize>,
+    rmw: Option<usize>,
     objs: *const SObjs,
 }
 
@@ -372,6 +373,11 @@ impl Drop for Payload {
         o.payload_drops.borrow_mut()[self.arc] += 1;
         if let Some(c) = self.cell {
             o.cells[c].with_mut(|p| unsafe { *p += 1 });
+        }
+        if let Some(a) = self.rmw {
+            // like a hand-rolled reference count: a load and an RMW inside a destructor
+            let _ = o.atomics[a].load(std::sync::atomic::Ordering::Acquire);
+            o.atomics[a].fetch_add(1, std::sync::atomic::Ordering::AcqRel);
         }
     }
 }
@@ -662,7 +668,7 @@ fn exec_op(
         }
         K::ArcHold { .. } => unreachable!("handled by exec_held"),
         K::ArcNew { h, arc } => {
-            let p = Payload { arc, cell: prog.objs.arcs[arc], objs: Rc::as_ptr(objs) };
+            let p = Payload { arc, cell: prog.objs.arcs[arc], rmw: prog.objs.arc_rmw.get(arc).copied().flatten(), objs: Rc::as_ptr(objs) };
             let a = loom::sync::Arc::new(p);
             *o.handles[h].borrow_mut() = Some(a);
             Res::U
